@@ -449,6 +449,12 @@ func runField(out *Writer, c Case, raw json.RawMessage) bool {
 			line.OffLat = sl.offLat.Load()
 		}
 		pl := newSampleLog(fs)
+		// a hang is an observation (TIMEOUT); the deadline grows with the number of samples so that a
+		// whole-block field on a loaded machine (or under the race detector) is not mistaken for one
+		limit := caseLimit
+		if vol := (fs.Hi[0] - fs.Lo[0] + 2) * (fs.Hi[1] - fs.Lo[1] + 2) * (fs.Hi[2] - fs.Lo[2] + 2) * len(fs.Attrs); vol > 0 {
+			limit += time.Duration(vol/50000) * time.Second
+		}
 		var g *Gate
 		if c.Gated && api != "AddField" {
 			g = &Gate{}
@@ -477,13 +483,13 @@ func runField(out *Writer, c Case, raw json.RawMessage) bool {
 					return r
 				}
 				return 1 << 30
-			}, nil, caseLimit, func(key int, _ []int, late bool) {
+			}, nil, limit, func(key int, _ []int, late bool) {
 				line.Jobs = append(line.Jobs, key)
 			})
 		} else {
 			select {
 			case <-done:
-			case <-time.After(caseLimit):
+			case <-time.After(limit):
 				status = "TIMEOUT"
 			}
 		}
